@@ -66,6 +66,7 @@ class Fn:
             d = ops[0]
         P = cxx2c.Printer(self.cname, self.types, self.calls, self.members, self.hooks, self.self_struct,
                           self.aggregates, self.stmt_hooks, self.uf_float, self.dtors)
+        P.field_init = lambda cls, fld: astload.field_initializer(self.tu, cls, fld)
         text = P.function(d, self.ret, self.extra_params)
         if self.post:
             text = self.post(text)
